@@ -131,6 +131,7 @@ type VC struct {
 	panicMode     bool
 	panicExits    []panicExit
 	callGhosts    map[string]*callGhost
+	unreach       map[*ssa.MakeSlice]bool
 	heapProbe     map[string]bool
 	specHeaps     map[*types.Func][]string
 	specProbing   map[*types.Func]bool
@@ -429,6 +430,13 @@ func (vc *VC) globalGet(s *State, g *ssa.Global) Term {
 		if first && !strings.HasPrefix(g.Pkg.Pkg.Path(), modPath) && types.Identical(t, types.Universe.Lookup("error").Type()) {
 			vc.addAssume("true", not(app("(_ is dnil)", c)))
 			vc.assume("error sentinel of an external package is non-nil: " + g.Pkg.Pkg.Name() + "." + g.Name())
+		}
+		if first && isInterface(t) {
+			// a never-reassigned interface variable initialised by a composite literal keeps its dynamic type
+			if dt, ok := vc.P.globalInitDynType(g); ok {
+				vc.addAssume("true", app("(_ is "+vc.S.boxOf(dt).ctor+")", c))
+				vc.assume("package variable " + g.Pkg.Pkg.Name() + "." + g.Name() + " is never reassigned (checked by SSA scan) and holds the value of its composite-literal initialiser (dynamic type " + dt.String() + ")")
+			}
 		}
 		if first {
 			// a never-reassigned package variable with a constant initialiser keeps that value
